@@ -27,8 +27,8 @@ def main():
             na.append(dict(property_id=p["id"], reason=P.NOT_APPLICABLE.get(p["id"], "check not built yet (see DESIGN.md section 6)")))
     m = dict(version=1,
              setup_cmd="true",
-             hooks=dict(guard="decaf377_verif", enable="none required: contracts live in /verif and are spliced into function text extracted from /repo's working tree on every run",
-                        baseline_off_cmd="cd /repo && cargo test --workspace --no-fail-fast --offline", source_commits=[], add_only=True),
+             hooks=dict(guard="decaf377_verif", enable='RUSTFLAGS="--cfg decaf377_verif" (hint-override hook in FqVarExtension::isqrt; used only by the replay runner built with features r1cs; the Verus units always see the guard-off text)',
+                        baseline_off_cmd="cd /repo && cargo test --workspace --no-fail-fast --offline", source_commits=['1217a89'], add_only=True),
              engines=[dict(name="vx", path="/verif/vx", serves_properties=[c["property_id"] for c in checks],
                            kind_free_text="extractor (python) + Verus 0.2026.09.13 single-file units + Kani harnesses on verbatim fiat files")],
              checks=checks,
